@@ -1,5 +1,6 @@
 import SpoxModel.Lemmas.VPHistory
 import SpoxModel.Props.C15
+import SpoxModel.Generated.VPOverrides
 /-!
 # C07 - propagated constant values equal what the model computes
 
@@ -491,6 +492,26 @@ theorem fold_binding_independent (b1 b2 : Nat → Payload) (st : State)
     (ho : st.var? r = some o) (hv : o.value = some pv) :
     denote b1 st r = denote b2 st r := by
   rw [fold_correct b1 st h hf r o pv ho hv, fold_correct b2 st h hf r o pv ho hv]
+
+/-! ### the sources of propagated values are exactly the modelled ones (tie G) -/
+
+/-- The `propagate_values` implementations the history model covers: `Node`'s default (nothing),
+    `StandardNode` (`Step.standard`), `_Inline` (`Step.inline`), `_Initializer` and the opsets'
+    `_Constant` (`Step.constant`). Control-flow operators, `_Introduce`, functions ... inherit one of
+    these; a class that starts to override `propagate_values` is a source of "constants" outside
+    every theorem of this file. -/
+def modelledOverride : String × String × String → Bool
+  | ("core", "_node.py", "Node") => true
+  | ("core", "_standard.py", "StandardNode") => true
+  | ("core", "_inline.py", "_Inline") => true
+  | ("core", "_internal_op.py", "_Initializer") => true
+  | ("opset", _, "_Constant") => true
+  | _ => false
+
+/-- **generated_overrides_modelled.** Every class that overrides `propagate_values` in the source
+    tree extracted on this run (`Generated/VPOverrides.lean`) is one the model covers. -/
+theorem generated_overrides_modelled :
+    Generated.VPOverrides.overrides.all modelledOverride = true := by decide
 
 /-! ### the pinned tree -/
 
